@@ -349,7 +349,7 @@ func (g *PrioGen) Next(r *R) int32 {
 // CollNames returns n distinct collection names of assorted shapes.
 func CollNames(r *R, n int, exotic bool) []string {
 	plain := []string{"a", "b", "c", "d", "main", "index", "x", "y"}
-	ex := []string{"", "with \"quotes\"", "back\\slash", "tab\there", "uni-é-世界", "0g1t2r", "3e4a5p3e4a5p", "a/b", "{\"o\":1}", "\u0001ctl", "<html>&"}
+	ex := []string{"", "with \"quotes\"", "back\\slash", "tab\there", "uni-é-世界", "0g1t2r", "3e4a5p3e4a5p", "a/b", "{\"o\":1}", "\u0001ctl", "<html>&", "del\x7f", "nul\x00mid", "astral-\U0001F600", "sep\u2028line", "\x1funit"}
 	seen := map[string]bool{}
 	var res []string
 	for len(res) < n {
